@@ -510,9 +510,10 @@ void rational_interval_mul(lp_rational_interval_t* P, const lp_rational_interval
     int tmp_open = I1->a_open || I2->b_open;
     rational_mul(&tmp, &I1->a, &I2->b);
     if (rational_interval_endpoint_lt(&tmp, tmp_open, &result.a, result.a_open)) {
-      rational_swap(&tmp, &result.a);
+      rational_assign(&result.a, &tmp);
       result.a_open = tmp_open;
-    } else if (rational_interval_endpoint_lt(&result.b, result.b_open, &tmp, tmp_open)) {
+    }
+    if (rational_interval_endpoint_lt(&result.b, !result.b_open, &tmp, !tmp_open)) {
       rational_swap(&tmp, &result.b);
       result.b_open = tmp_open;
     }
@@ -521,9 +522,10 @@ void rational_interval_mul(lp_rational_interval_t* P, const lp_rational_interval
     tmp_open = I1->b_open || I2->a_open;
     rational_mul(&tmp, &I1->b, &I2->a);
     if (rational_interval_endpoint_lt(&tmp, tmp_open, &result.a, result.a_open)) {
-      rational_swap(&tmp, &result.a);
+      rational_assign(&result.a, &tmp);
       result.a_open = tmp_open;
-    } else if (rational_interval_endpoint_lt(&result.b, result.b_open, &tmp, tmp_open)) {
+    }
+    if (rational_interval_endpoint_lt(&result.b, !result.b_open, &tmp, !tmp_open)) {
       rational_swap(&tmp, &result.b);
       result.b_open = tmp_open;
     }
@@ -532,9 +534,10 @@ void rational_interval_mul(lp_rational_interval_t* P, const lp_rational_interval
     tmp_open = I1->b_open || I2->b_open;
     rational_mul(&tmp, &I1->b, &I2->b);
     if (rational_interval_endpoint_lt(&tmp, tmp_open, &result.a, result.a_open)) {
-      rational_swap(&tmp, &result.a);
+      rational_assign(&result.a, &tmp);
       result.a_open = tmp_open;
-    } else if (rational_interval_endpoint_lt(&result.b, result.b_open, &tmp, tmp_open)) {
+    }
+    if (rational_interval_endpoint_lt(&result.b, !result.b_open, &tmp, !tmp_open)) {
       rational_swap(&tmp, &result.b);
       result.b_open = tmp_open;
     }
@@ -620,9 +623,10 @@ void dyadic_interval_mul(lp_dyadic_interval_t* P, const lp_dyadic_interval_t* I1
     int tmp_open = I1->a_open || I2->b_open;
     dyadic_rational_mul(&tmp, &I1->a, &I2->b);
     if (dyadic_interval_endpoint_lt(&tmp, tmp_open, &result.a, result.a_open)) {
-      dyadic_rational_swap(&tmp, &result.a);
+      dyadic_rational_assign(&result.a, &tmp);
       result.a_open = tmp_open;
-    } else if (dyadic_interval_endpoint_lt(&result.b, result.b_open, &tmp, tmp_open)) {
+    }
+    if (dyadic_interval_endpoint_lt(&result.b, !result.b_open, &tmp, !tmp_open)) {
       dyadic_rational_swap(&tmp, &result.b);
       result.b_open = tmp_open;
     }
@@ -631,9 +635,10 @@ void dyadic_interval_mul(lp_dyadic_interval_t* P, const lp_dyadic_interval_t* I1
     tmp_open = I1->b_open || I2->a_open;
     dyadic_rational_mul(&tmp, &I1->b, &I2->a);
     if (dyadic_interval_endpoint_lt(&tmp, tmp_open, &result.a, result.a_open)) {
-      dyadic_rational_swap(&tmp, &result.a);
+      dyadic_rational_assign(&result.a, &tmp);
       result.a_open = tmp_open;
-    } else if (dyadic_interval_endpoint_lt(&result.b, result.b_open, &tmp, tmp_open)) {
+    }
+    if (dyadic_interval_endpoint_lt(&result.b, !result.b_open, &tmp, !tmp_open)) {
       dyadic_rational_swap(&tmp, &result.b);
       result.b_open = tmp_open;
     }
@@ -642,9 +647,10 @@ void dyadic_interval_mul(lp_dyadic_interval_t* P, const lp_dyadic_interval_t* I1
     tmp_open = I1->b_open || I2->b_open;
     dyadic_rational_mul(&tmp, &I1->b, &I2->b);
     if (dyadic_interval_endpoint_lt(&tmp, tmp_open, &result.a, result.a_open)) {
-      dyadic_rational_swap(&tmp, &result.a);
+      dyadic_rational_assign(&result.a, &tmp);
       result.a_open = tmp_open;
-    } else if (dyadic_interval_endpoint_lt(&result.b, result.b_open, &tmp, tmp_open)) {
+    }
+    if (dyadic_interval_endpoint_lt(&result.b, !result.b_open, &tmp, !tmp_open)) {
       dyadic_rational_swap(&tmp, &result.b);
       result.b_open = tmp_open;
     }
@@ -887,7 +893,7 @@ void lp_interval_mul(lp_interval_t* mul, const lp_interval_t* I1, const lp_inter
       lp_value_swap(&tmp_lb, &result.a);
       result.a_open = tmp_open;
     }
-    if (lp_interval_endpoint_lt(&result.b, result.b_open, &tmp_ub, tmp_open)) {
+    if (lp_interval_endpoint_lt(&result.b, !result.b_open, &tmp_ub, !tmp_open)) {
       lp_value_swap(&tmp_ub, &result.b);
       result.b_open = tmp_open;
     }
@@ -899,7 +905,7 @@ void lp_interval_mul(lp_interval_t* mul, const lp_interval_t* I1, const lp_inter
       lp_value_swap(&tmp_lb, &result.a);
       result.a_open = tmp_open;
     }
-    if (lp_interval_endpoint_lt(&result.b, result.b_open, &tmp_ub, tmp_open)) {
+    if (lp_interval_endpoint_lt(&result.b, !result.b_open, &tmp_ub, !tmp_open)) {
       lp_value_swap(&tmp_ub, &result.b);
       result.b_open = tmp_open;
     }
@@ -911,7 +917,7 @@ void lp_interval_mul(lp_interval_t* mul, const lp_interval_t* I1, const lp_inter
       lp_value_swap(&tmp_lb, &result.a);
       result.a_open = tmp_open;
     }
-    if (lp_interval_endpoint_lt(&result.b, result.b_open, &tmp_ub, tmp_open)) {
+    if (lp_interval_endpoint_lt(&result.b, !result.b_open, &tmp_ub, !tmp_open)) {
       lp_value_swap(&tmp_ub, &result.b);
       result.b_open = tmp_open;
     }
